@@ -18,7 +18,7 @@ impl vstd::std_specs::convert::FromSpecImpl<ExecutionExitCode> for ExecutionResu
 }
 impl From<ExecutionExitCode> for ExecutionResult { #[verifier::external_body] fn from(c: ExecutionExitCode) -> Self { unimplemented!() } }
 pub struct RuntimeOptionsP { pub enable_job_control: bool }
-pub struct JobManager { pub jobs: Vec<Job> }                                  // the real struct: one public field (checked)
+pub struct JobManager { pub jobs: Vec<Job>, pub all_waited: Ghost<nat> }       // the real struct's one public field (checked) + ghost: how often wait_all ran
 pub struct Shell { pub jobs: JobManager, pub options: RuntimeOptionsP }        // projection
 pub struct ExecutionContext<'a> { pub shell: &'a mut Shell }                   // projection
 pub open spec fn ids(js: Seq<Job>) -> Seq<usize> { js.map_values(|j: Job| j.id) }
@@ -34,12 +34,18 @@ impl JobManager {
     #[verifier::external_body]
     pub fn resolve_job_spec(&mut self, job_spec: &str) -> (r: Option<&mut Job>)
         ensures
+            final(self).all_waited@ == old(self).all_waited@,
             r is None ==> final(self).jobs@ == old(self).jobs@,
             r is Some ==> exists|k: int| 0 <= k < old(self).jobs@.len() && *(r->Some_0) == old(self).jobs@[k] && final(self).jobs@ == old(self).jobs@.update(k, *final(r->Some_0)),
     { unimplemented!() }
     // wait_all: contract proved in unit U18 (every job awaited first; only finished jobs leave the table)
     #[verifier::external_body]
-    pub fn wait_all(&mut self) -> (r: Result<Vec<Job>, brush_core::Error>) { unimplemented!() }
+    pub fn wait_all(&mut self) -> (r: Result<Vec<Job>, brush_core::Error>)
+        ensures final(self).all_waited@ == old(self).all_waited@ + 1
+    { unimplemented!() }
+    // accessors a fast path might consult; nothing is known about their results here
+    #[verifier::external_body] pub fn current_job(&self) -> (r: Option<&Job>) { unimplemented!() }
+    #[verifier::external_body] pub fn prev_job(&self) -> (r: Option<&Job>) { unimplemented!() }
 }
 #[verifier::external_body] pub fn vx_report_no_such_job(context: &ExecutionContext, id: &String) -> (r: Result<(), brush_core::Error>) { unimplemented!() }
 #[verifier::external_body] pub fn vx_print_job(context: &ExecutionContext, job: &Job) -> (r: Result<(), brush_core::Error>) { unimplemented!() }
